@@ -440,12 +440,11 @@ def parse_single_name_into_parts(name, strict=True):
             # string. Last is the rest. NB., this means last cannot be empty.
 
             # At least one lowercase letter.
-            if 0 in cases:
-                # Index from end of list of first and last lowercase word.
+            if 0 in cases[:-1]:
+                # Index from end of list of first and last lowercase word
+                # (the final word cannot be consumed: last cannot be empty).
                 firstl = cases.index(0) - len(cases)
-                lastl = -cases[::-1].index(0) - 1
-                if lastl == -1:
-                    lastl -= 1  # Cannot consume the rest of the string.
+                lastl = -cases[-2::-1].index(0) - 2
 
                 # Pull the parts out.
                 parts.first = p0[:firstl]
